@@ -169,6 +169,14 @@ def run(res: C.Result):
                 dist["worst_com_drift"] = max(dist["worst_com_drift"], r["worst_com"])
                 if r["worst_com"] > 1e-11 * r["scale"]:
                     res.fail(f"fixcom:{c['driver']}", f"the centre of mass drifted by {r['worst_com']:.3e} (first at step {r['first_bad_step']})", {"input": c, "observed": {x: r[x] for x in ("worst_com", "first_bad_step", "history")}})
+            ck = r.get("ckpt")
+            if ck:      # the same system across two checkpoints (from_dict(to_dict())) under shipped moves and criteria
+                dist["checkpoint_legs"] = dist.get("checkpoint_legs", 0) + 2
+                dist["checkpoint_legs_accepted_trials"] = dist.get("checkpoint_legs_accepted_trials", 0) + ck.get("accepted", 0)
+                if c["constraint"] == "fixatoms" and ck["worst_fixed"] != 0.0:
+                    res.fail(f"fixatoms-after-checkpoint:{c['driver']}", f"a fixed atom moved by {ck['worst_fixed']:.3e} in a simulation rebuilt from its checkpoint", {"input": c, "observed": ck})
+                if c["constraint"] == "fixcom" and ck["worst_com"] > 1e-11 * r["scale"]:
+                    res.fail(f"fixcom-after-checkpoint:{c['driver']}", f"the centre of mass drifted by {ck['worst_com']:.3e} in a simulation rebuilt from its checkpoint (constraints there: {ck['constraints']})", {"input": c, "observed": ck})
             # correspondence on the logged set_positions calls
             ms = [fx(x) for x in r["masses"]]
             n = c["natoms"]
